@@ -36,6 +36,7 @@ type LeakyBucketPacer struct {
 	qLock sync.RWMutex
 	queue *list.List
 	done  chan struct{}
+	wg    sync.WaitGroup
 
 	ssrcToWriter map[uint32]interceptor.RTPWriter
 	writerLock   sync.RWMutex
@@ -68,7 +69,11 @@ func newLeakyBucketPacer(initialBitrate int, loggerFactory logging.LoggerFactory
 		},
 	}
 
-	go pacer.Run()
+	pacer.wg.Add(1)
+	go func() {
+		defer pacer.wg.Done()
+		pacer.Run()
+	}()
 
 	return pacer
 }
@@ -175,6 +180,8 @@ func (p *LeakyBucketPacer) Run() {
 // Close closes the LeakyBucketPacer.
 func (p *LeakyBucketPacer) Close() error {
 	close(p.done)
+	// wait for the pacing goroutine: nothing may be written once Close has returned
+	p.wg.Wait()
 
 	return nil
 }
